@@ -467,6 +467,15 @@ func genArgs(r *kernel.Rand, d *c16Data) {
 			parts[i] = "(" + parts[i] + " | " + identityProbe + ")"
 		}
 	}
+	// line terminators inside string-like tokens are data, not layout: `-f file` must compile the
+	// file's text as it is
+	var rawWants []string
+	if r.Bool(0.3) {
+		nl := kernel.Pick(r, []string{"\r\n", "\r\n", "\n", "\r", "\r\r\n", "\n\r"})
+		esc := strings.NewReplacer("\r", `\r`, "\n", `\n`).Replace(nl)
+		parts = append(parts, `"x`+nl+`y"`, `@text "p`+nl+`\(1)`+nl+`"`, `{"k`+nl+`": 1}`, "1 # comment"+nl+"+ 1")
+		rawWants = []string{`"x` + esc + `y"`, `"p` + esc + `1` + esc + `"`, `{"k` + esc + `":1}`, "2"}
+	}
 	sc.Query = "[" + strings.Join(parts, ", ") + "]"
 	sc.FromFile = r.Bool(0.3)
 	// expected, by construction
@@ -500,6 +509,7 @@ func genArgs(r *kernel.Rand, d *c16Data) {
 		ps = append(ps, enc(p))
 	}
 	want = append(want, "["+strings.Join(ps, ",")+"]")
+	want = append(want, rawWants...)
 	d.Want = "[" + strings.Join(want, ",") + "]\n"
 }
 
